@@ -40,6 +40,9 @@ func feederState() string {
 	n := runtime.Stack(buf, true)
 	for _, g := range strings.Split(string(buf[:n]), "\n\n") {
 		if !strings.Contains(g, "hybridbuffer.(*outputFeeder).Run") {
+			if strings.Contains(g, "hybridbuffer.(*bufferer).Start.gowrap") {
+				return "busy" // created, has not run yet
+			}
 			continue
 		}
 		head := g
@@ -51,6 +54,8 @@ func feederState() string {
 			return "waiting"
 		case strings.Contains(head, "[chan receive") && !strings.Contains(g, "saveEverything"):
 			return "idle"
+		case strings.Contains(head, "[chan receive") && strings.Contains(g, "saveEverything"):
+			return "saving" // the main loop has ended although the queue was not closed
 		case strings.Contains(head, "[select") && strings.Contains(g, "loadToOutput"):
 			return "blocked"
 		}
